@@ -82,6 +82,9 @@ pub const FULL: &[Tok] = &[
     t("1", Cls::Literal),
     t("1.0", Cls::Literal),
     t("\"s\"", Cls::Literal),
+    t("\"\\\\\"", Cls::Literal), // "\\" : escaped backslash right before the closing quote
+    t("\"a\\\"b\"", Cls::Literal), // "a\"b" : escaped quote
+    t("0xAf", Cls::Literal),
     // trivia (5)
     t(" ", Cls::Trivia),
     t("\n", Cls::Trivia),
